@@ -112,8 +112,9 @@ type TCPTarget struct {
 	L     *net.TCPListener
 	Addr  string
 	conns chan *net.TCPConn
-	mu    sync.Mutex
-	all   []*net.TCPConn
+	mu     sync.Mutex
+	all    []*net.TCPConn
+	closed bool
 }
 
 func NewTCPTarget(ip string) (*TCPTarget, error) {
@@ -134,6 +135,12 @@ func NewTCPTargetAddr(a *net.TCPAddr) (*TCPTarget, error) {
 				return
 			}
 			t.mu.Lock()
+			if t.closed {
+				// accepted concurrently with Close: nobody would ever close it otherwise
+				t.mu.Unlock()
+				c.Close()
+				return
+			}
 			t.all = append(t.all, c)
 			t.mu.Unlock()
 			select {
@@ -164,6 +171,7 @@ func (t *TCPTarget) Accepted() int {
 func (t *TCPTarget) Close() {
 	t.L.Close()
 	t.mu.Lock()
+	t.closed = true
 	for _, c := range t.all {
 		c.Close()
 	}
